@@ -12,11 +12,11 @@ CORE_WRAPS = ['syscall', 'epoll_create', 'epoll_ctl', 'epoll_wait', 'epoll_pwait
               'gettimeofday', 'pthread_create', 'pthread_join', 'pthread_detach', 'pthread_mutex_lock',
               'pthread_mutex_unlock', 'pthread_spin_lock', 'pthread_spin_unlock', 'abort',
               'sigaction', 'signal', 'pthread_sigmask', 'sigprocmask', 'fork', 'wait4', 'kill', 'getpid',
-              'pthread_atfork', 'pthread_spin_init', 'pthread_mutex_init']
+              'pthread_atfork', 'pthread_spin_init', 'pthread_mutex_init', 'malloc', 'calloc', 'free', 'strdup']
 
 
 def build_core(kind="plain"):
-    return vlib.build_harness('ivh_core', ['simk.c', 'simk_sig.c', 'ivh_core.c'], kind, wraps=CORE_WRAPS)
+    return vlib.build_harness('ivh_core', ['simk.c', 'simk_sig.c', 'memrec.c', 'ivh_core.c'], kind, wraps=CORE_WRAPS)
 
 
 def run_scripts(exe, scripts, scratch, tag="core", nproc=None, per_file=None):
